@@ -1221,7 +1221,7 @@ _FORMS_SHARE = {'nt': 0.45, 'ledger': 0.37, 'ledger_across_reset': 0.13, 'mut_in
                 'style_recall': 0.05, 'value_near': 0.098, 'value_halves': 0.049, 'op_lit': 0.11, 'op_get': 0.28, 'near_one_lit': 0.2,
                 'reset_between': 0.2}
 if KEY_NARROWF not in load_known('C09')[0]:
-    _FORMS_SHARE['narrow_float'] = 0.07
+    _FORMS_SHARE['narrow_float'] = 0.06     # 0.12 on the repaired tree
 
 # the two enumerations are cheap (seconds) and run as one shard each so that they are scheduled first and are never starved by
 # the wall budget when the machine is shared
@@ -1270,8 +1270,8 @@ CLAUSES = [
                 'chosen unit is one (1e-12) via unit[], parse and get_in_units, the table is the same after different previous '
                 'configurations and for every keyword order; documented ValueError refusals'),
     Clause('pairs', oracle_pairs, enumerate=pairs_enumerate, nshards=1,
-           min_share={'nt': 0.5, 'reset_pair': 0.45, 'style_pair': 0.04, 'same_choice': 0.015, 'mid_seed': 0.15, 'mid_SI': 0.15,
-                      'other_quantities': 0.4, 'style_edit': 0.03},
+           min_share={'nt': 0.5, 'reset_pair': 0.45, 'style_pair': 0.015, 'same_choice': 0.015, 'mid_seed': 0.15, 'mid_SI': 0.15,
+                      'other_quantities': 0.4, 'style_edit': 0.01},
            desc='exhaustive: every ordered pair of named working-unit choices (29 x 29 subsets of the quantities, and the same choice '
                 'asked for again), with nothing / a random seed / SI in between: chosen units are one and the table equals the one '
                 'reached from the SI baseline (1e-12); every ordered pair of the 8 LAMMPS unit styles, with the caller editing the '
